@@ -1,0 +1,12 @@
+//go:build verif
+
+package client
+
+// Hooks for the C08 CSPTP harness (harness/cmd/c08csptp). Add-only; compiled only with the
+// build tag "verif".
+
+// VerifSetSequenceID sets the sequence id the next MeasureClockOffset will use.
+func (c *CSPTPClientIP) VerifSetSequenceID(id uint16) { c.sequenceID = id }
+
+// VerifSequenceID returns the sequence id the next MeasureClockOffset will use.
+func (c *CSPTPClientIP) VerifSequenceID() uint16 { return c.sequenceID }
